@@ -14,7 +14,8 @@
 (*           loader truncates a torn tail, so it can overstate the file)                             [volatile]     *)
 (*   gap     HoleQuirk only: distance between the end of the file and the writer's file offset       [volatile]     *)
 (*   up      the process runs and the WAL is open                                                                    *)
-(* Sizes are in units (the driver pads every entry to exactly sz units of 64 bytes, SegSize likewise).               *)
+(* Sizes are abstract units; they decide which appends roll over.  The driver gives each decision its byte value:    *)
+(* before an append it sets WAL.SegmentSize to the writer's current size (no roll-over) or to one byte less (roll).  *)
 (*                                                                                                                   *)
 (* Contract layer: `acked` (operations whose call returned nil, in append order), `dropped` (operations whose        *)
 (* segment was handed to Remove), `maybe` (operations in flight when the process crashed).                           *)
